@@ -62,9 +62,14 @@ def operations(rng, G, g, prev=()):
     uri = rng.choice(uris)
     if k == "write":
         inc = rng.random() < 0.6; nv = rng.choice([None, None, "7.7.7", "8.0"])
+        to_file = rng.random() < 0.3          # the target type of the output: a path (the same path every time, so an earlier document stands there) or a StringIO
         def f():
+            if to_file:
+                pth = os.path.join(vlib.WORK, "c15_out_%d.xml" % os.getpid())
+                G.write_nodeset(pth, uri, include_outgoing_instance_level_references=inc, last_modified=writeprops.T0, publication_date=writeprops.T0, new_model_version=nv)
+                return open(pth, encoding="utf-8").read()
             s = io.StringIO(); G.write_nodeset(s, uri, include_outgoing_instance_level_references=inc, last_modified=writeprops.T0, publication_date=writeprops.T0, new_model_version=nv); return s.getvalue()
-        return ("write", uri, inc, nv), f
+        return ("write", uri, inc, nv, "file" if to_file else "stringio"), f
     if k == "write_xmlns":
         u1 = G.namespaces[1] if len(G.namespaces) > 1 and G.namespaces[1] in uris else None
         if u1 is None: return operations(rng, G, g, prev)
@@ -142,7 +147,7 @@ def fresh_process_write(paths, uri, inc):
 def check(ctx):
     rng = ctx.rng
     ctx.rule = ("histories of 4-8 (quick) / up to 40 (thorough) read-only operations on real graphs built from generated document sets: write_nodeset with every argument choice "
-                "(namespace, outgoing-reference switch, new model version), normalised tables (whole / per namespace), look-ups, closure, relatives, node paths, neighbours, circular references, "
+                "(namespace, outgoing-reference switch, new model version, output to a path or to a StringIO) and through create_nodeset2_file with own xmlns declarations, normalised tables (whole / per namespace), look-ups, closure, relatives, node paths, neighbours, circular references, "
                 "instances, selectors, subtypes; after EVERY step the graph (cell values, dtypes, index, column order, namespaces, models) is compared with its snapshot, and every result with the "
                 "result of the same operation on a freshly built graph. Distinct by SHA-256 of the history; non-trivial when the history has at least two different kinds of operation.")
     ctx.trusted = ["hand-written Gallina model coq/M_C15.v: a state machine over the graph object in which write_nodeset's result is the writer model's document (tied to the code by C06's correspondence) "
@@ -268,6 +273,8 @@ def check(ctx):
             ctx.record(dict(case=ci, history=[list(map(str, h)) for h in hist]), len(kinds) >= 2, sorted(kinds))
     finally:
         shutil.rmtree(work, ignore_errors=True)
+        try: os.remove(os.path.join(vlib.WORK, "c15_out_%d.xml" % os.getpid()))
+        except OSError: pass
     ans = vlib.run_model(reqs, shards=8)
     for (ci, desc, out, unesc), a in zip(meta, ans):
         mo = writeprops.dec_doc(a)
